@@ -329,13 +329,20 @@ def handleC32 (j : Json) : Json :=
     let vBound := if bound.all (fun (k, e) => match ws.find? (·.1 == k) with
         | some (_, w) => mapSame e.cpuMap w.cpuMap && !e.remap
         | none => false) then [] else ["C32:bound-touched"]
+    -- each remapped workload keeps ITS OWN cpu / memory limits (also a C31 matter: engine settings)
+    let limitsOk := out.all fun (k, e) => match ws.find? (·.1 == k) with
+      | some (_, w) => e.cpu == w.cpuLimit && e.memory == w.memoryLimit
+      | none => true
+    let vLimits := if limitsOk then [] else ["C32:remap:limits", "C31:remap-limits"]
     let tried := (jarr (jget impl "tried")).map jstr
     let vTried := if gone.all (fun g => tried.contains g) then [] else ["C32:engine-error-not-attempted"]
-    let spec := (if remapOkB n shareBase ws out then [] else [if gone.isEmpty then "C32:remap" else "C32:remap:after-engine-error"]) ++ vBound ++ vTried
+    let spec := (if remapOkB n shareBase ws out then [] else [if gone.isEmpty then "C32:remap" else "C32:remap:after-engine-error"]) ++ vBound ++ vTried ++ vLimits
+    let lims := ((ws.filter fun (_, w) => w.cpuMap.length = 0).map fun (_, w) => (w.cpuLimit, w.memoryLimit)).eraseDups
     let nfree := (freeCores n shareBase).length
     let pre := (if jstr (jget j "cluster") != "" then "cluster-" ++ jstr (jget j "cluster") ++ ":" else "") ++ (if jbool (jget j "multi") then "multi:" else "")
     let cls := pre ++ (if ws.isEmpty then "empty" else if m.isEmpty then "all-bound" else if m.length == ws.length then "all-unbound" else "mixed") ++
-      (if nfree == 0 then ":no-free-core" else if nfree == n.capacity.cpuMap.length then ":all-free" else ":some-free")
+      (if nfree == 0 then ":no-free-core" else if nfree == n.capacity.cpuMap.length then ":all-free" else ":some-free") ++
+      (if lims.length ≥ 2 then ":difflimits" else "")
     verdict id agree (Json.mkObj (m.map fun (k, e) => (k, mapToJson e.cpuMap))) spec cls (ws.isEmpty)
 
 def handle (j : Json) : Json :=
